@@ -131,7 +131,7 @@ Definition P_BLOB : N := 11.            (* "blob size not known" *)
 Definition P_TREE : N := 12.            (* "tree size not available!" *)
 Definition P_COMMIT : N := 13.          (* "commit is not available" *)
 Definition P_REMAIN : N := 14.          (* "%d tree/tag records remain!" *)
-Definition P_FUEL : N := 15.            (* model artefact: work-list fuel exhausted (excluded by theorem) *)
+Definition P_FUEL : N := 15.            (* model artefact: work-list fuel exhausted (proved unreachable: ScanFinal.scan_correct) *)
 
 Definition total_entries (r : repo) : nat :=
   fold_right (fun p acc => match snd p with Tree _ es => length es + acc | Tag _ _ _ => 1 + acc | _ => acc end)%nat 0%nat r.
